@@ -1,15 +1,19 @@
 #!/bin/bash
 # Applies every stored seeded change to /repo (git apply), runs all checks, records which fire, and
 # undoes the change (git checkout -- .).  Prints the detection matrix and updates meta.json caught_by.
+# With REPO=<clean worktree of /repo> the changes are applied there instead (olacheck -repo), so that the run does not
+# collide with another tool that is using /repo's working tree.
 set -u
 cd /verif
-[ -z "$(git -C /repo status --porcelain)" ] || { echo "/repo is not clean"; exit 2; }
+REPO="${REPO:-/repo}"
+RARG=""; [ "$REPO" != /repo ] && RARG="-repo $REPO"
+[ -z "$(git -C $REPO status --porcelain)" ] || { echo "$REPO is not clean"; exit 2; }
 for d in seeded/*/; do
   id=$(basename "$d")
-  if ! git -C /repo apply --check "$PWD/$d/patch.diff" 2>/dev/null; then echo "$id: patch no longer applies"; continue; fi
-  git -C /repo apply "$PWD/$d/patch.diff"
-  caught=$(bin/olacheck -prop all -no-evidence 2>&1 | grep -E '^VIOLATION' | sed -E 's/VIOLATION property=([A-Z0-9]+) replay=.*\/[A-Z0-9]+-(.*)-[0-9a-f]+\.json/\1:\2/' | sort -u | tr '\n' ' ')
-  git -C /repo checkout -- .
+  if ! git -C $REPO apply --check "$PWD/$d/patch.diff" 2>/dev/null; then echo "$id: patch no longer applies"; continue; fi
+  git -C $REPO apply "$PWD/$d/patch.diff"
+  caught=$(bin/olacheck $RARG -prop all -no-evidence 2>&1 | grep -E '^VIOLATION' | sed -E 's/VIOLATION property=([A-Z0-9]+) replay=.*\/[A-Z0-9]+-(.*)-[0-9a-f]+\.json/\1:\2/' | sort -u | tr '\n' ' ')
+  git -C $REPO checkout -- .
   rm -f replays/*.json
   echo "$id: $caught"
   python3 - "$d/meta.json" "$caught" <<'PY'
@@ -17,4 +21,4 @@ import json,sys
 m=json.load(open(sys.argv[1])); m['caught_by']=sys.argv[2].split(); json.dump(m,open(sys.argv[1],'w'),indent=1)
 PY
 done
-[ -z "$(git -C /repo status --porcelain)" ] && echo "/repo clean"
+[ -z "$(git -C $REPO status --porcelain)" ] && echo "$REPO clean"
